@@ -97,6 +97,35 @@ theorem default_only_for_unattributed (c : Ctx) (sh : FmtAttr) (va : Container) 
   rw [hinfo]
   cases hf : va.fmt <;> simp [hf, pure, Except.pure, bind, Except.bind]
 
+/-! ### What the wrapped single field prints under `Pointer`
+
+A variant binds `_0 : &Field` (the address of the field's slot); the field holds a pointer.
+`Pointer::fmt(_0, f)` — the variant by itself — takes `&self` and prints the pointer held by the
+field; `format_args!("{:p}", e)` prints the pointer that `e` evaluates to. -/
+
+inductive PArg where
+  | binding        -- `_0`
+  | derefBinding   -- `*_0`
+  deriving DecidableEq
+
+/-- The address printed by `format_args!("{:p}", e)`. -/
+def pointerPrinted (slot held : Nat) : PArg → Nat
+  | .binding => slot
+  | .derefBinding => held
+
+def wrappedArg (tr : Trait) : PArg := if wrappedFieldDeref tr then .derefBinding else .binding
+
+/-- Under a wrapping enum-level format an attribute-less single-field variant of a `Pointer`
+derive prints, as `_variant`, the pointer the field holds — what the variant prints by itself —
+and not the address of the field. (On the pinned tree it printed the slot: fixed.) -/
+theorem wrapped_pointer_field_prints_held_pointer (slot held : Nat) :
+    pointerPrinted slot held (wrappedArg .pointer) = held := rfl
+
+/-- Only `Pointer` dereferences: the other traits receive the binding itself. -/
+theorem wrapped_field_deref_iff_pointer (tr : Trait) :
+    wrappedArg tr = .derefBinding ↔ tr = .pointer := by
+  cases tr <;> simp [wrappedArg, wrappedFieldDeref]
+
 /-- A `_variant` placeholder with any format specifier or a non-`Display` trait is rejected. -/
 theorem variant_spec_rejected (c : Ctx) (attrs : List CAttr) (cont : Container) (vs : List VariantD)
     (hc : mergeAttrs attrs = .ok cont) (hbad : badVariantPlaceholder c cont = true) :
